@@ -69,6 +69,17 @@ CHECKS = {
                       'digests that ran to the end; distinct states = (command, statement kind at pc, frame depth, halted?)'),
                 assumptions=['statement records and line numbers are read from the debug map by simqb\'s own reader (their soundness is C11)',
                              'a step that is stopped early by a user breakpoint is accepted']),
+    'C01': dict(mod='c01', level='exploration',
+                rule=('scenario = reference-subset program (typed generator) x device script (response lines, keys, RNG values, '
+                      'virtual clock with jumps) x 3 compiler configurations; the reference interpreter and the real machine '
+                      'run the same script and the same fault plan (fault-free, then device failures addressed by (operation, '
+                      'n-th execution)); compared event by event: typed PRINT items with separators, INPUT dialogue, device '
+                      'calls with arguments, outcome class and (with -g) the line of the failing statement. evaluations = '
+                      'compilations + simulated runs; distinct_nontrivial = distinct (text, configs, plan) digests on which '
+                      'all configurations agreed with the reference'),
+                assumptions=['the reference interpreter (simqb/ref.py, semantic decisions in DESIGN.md appendix A) is trusted',
+                             'runs that leave the reference subset are counted as inconclusive, not compared',
+                             'the virtual clock advances per low-level device call (event-driven)']),
 }
 
 
